@@ -212,6 +212,18 @@ class Heap(object):
         f = z3.Function("Q_idx", *([a.sort() for a in args] + [IntS, IntS, IntS]))
         return VInt(f(*(args + [x.t, y.t])))
 
+    def mh(self, x):
+        """MH(x): the longest downward path from x to a token (0 for a token)"""
+        args = self._shape_args()
+        f = z3.Function("G_mh", *([a.sort() for a in args] + [IntS, IntS]))
+        return VInt(f(*(args + [x.t])))
+
+    def mh_witness(self, x):
+        """index in T(x) of a token at maximal depth below x"""
+        args = self._shape_args()
+        f = z3.Function("G_mhw", *([a.sort() for a in args] + [IntS, IntS]))
+        return VInt(f(*(args + [x.t])))
+
     def nn(self, x):
         """NN(x): number of nodes of the subtree of x"""
         args = self._shape_args()
